@@ -173,11 +173,14 @@ Qed.
 Theorem filtered_transfer_converges_proof (H : bytes -> bytes) (hdr : stat -> bytes) (d : differ) (A : list AbsDest.entry) :
   wf_listing (map fst A) ->
   identity_faithful d A (filtered_entries pmatch mapfn c view) ->
+  (* the receiver gives a hard link the metadata of the inode it joins (AbsDest.link_stat), not
+     the stat as sent: the members of a link group must be announced with one metadata *)
+  links_meta (sender_entries pmatch mapfn c view) ->
   let r := receive_abs H hdr Fresh d A (sender_entries pmatch mapfn c view) in
   ds_err r = false /\
   forall p, view_equiv (alookup p (ds_map r)) (efind p (filtered_entries pmatch mapfn c view)).
 Proof.
-  intros HwA Hfaith. cbv zeta.
+  intros HwA Hfaith Hmeta. cbv zeta.
   assert (HwB : wf_listing (map fst (sender_entries pmatch mapfn c view))).
   { rewrite fst_sender_entries. exact (proj1 (sv_wf_listing pmatch mapfn c Hshape Hdirs view Hwf Hlinks)). }
   assert (Hfaith' : identity_faithful d A (sender_entries pmatch mapfn c view)).
@@ -186,7 +189,7 @@ Proof.
     rewrite (sent_regular sb Hs Hreg).
     apply (Hfaith sa ba sb (content_at view (st_path sb)) Ha); auto.
     unfold filtered_entries. apply in_map_iff. exists sb. auto. }
-  destruct (receive_fresh_proof H hdr d A _ HwA HwB sender_links_ok Hfaith') as (He & _ & Hv & _).
+  destruct (receive_fresh_proof H hdr d A _ HwA HwB sender_links_ok Hfaith' Hmeta) as (He & _ & Hv & _).
   split; [exact He|]. intros p. specialize (Hv p).
   unfold sender_entries in Hv. unfold filtered_entries.
   rewrite (efind_map (fun s => sent (st_path s))) in Hv. rewrite (efind_map (fun s => content_at view (st_path s))).
